@@ -165,21 +165,13 @@ CHECKS['C13'] = {
 CHECKS['C14'] = {
     'verus_units': ['parser'],
     'clause_prefixes': ['c14'],
-    'kani': {
-        'sets': ['parser_bounded'],
-        'quick': ['extract_near_no_panic'],
-        'thorough': ['extract_near_no_panic'],
-        'bounded': {'extract_near_no_panic': 'one line of <= 4 characters over {a, space}, column <= 6, unwind 7'},
-        'timeout': 900,
-        'assumptions': ['bounded stand-in, not a proof: TokenLocation::extract_near is string code outside Verus'],
-    },
-    'technique': 'contract-based deductive verification (Verus) of the parser\'s token cursor (Parser::new/next/current/current_location/create_error/expect_token/expect_and_consume_token, ParserError::new) extracted from /repo; bounded Kani harness for TokenLocation::extract_near',
-    'claim': 'Proof (cursor kernel only) that once the first next() succeeded the cursor stays inside the token vector, next() at the end is an error and not a step, current()/current_location() never index out of bounds and every error created carries the location of a real token. "Any text yields a statement or a located error" for the whole tokenizer and recursive-descent parser is NOT decided. extract_near is checked only by a bounded Kani harness (labelled bounded, not counted).',
+    'technique': 'contract-based deductive verification (Verus) of the parser\'s token cursor (Parser::new/next/current/current_location/create_error/expect_token/expect_and_consume_token, ParserError::new) extracted from /repo',
+    'claim': 'Proof (cursor kernel only) that once the first next() succeeded the cursor stays inside the token vector, next() at the end is an error and not a step, current()/current_location() never index out of bounds and every error created carries the location of a real token. "Any text yields a statement or a located error" for the whole tokenizer and recursive-descent parser is NOT decided. TokenLocation::extract_near is not under contract (a bounded Kani harness over 4-character lines did not terminate within 600 s and was dropped).',
     'note': 'Trusted: tokenize() always appends Token::End (precondition tokens.len() >= 1), Vec length <= isize::MAX. Unproved: tokenizer, all parse_* functions except parse_unary_operator, parser_tree_converter (transform_call_aggregate), TableDefinition::new; the panics found there (extract_near underflow, empty JSON path, string_agg arity) were repaired and are demonstrated by replays.',
     'level': 'proof',
     'explanation': 'Cursor safety is the invariant 0 <= index < tokens.len() established by next() and required by every accessor.',
     'trusted': COMMON_TRUST,
-    'unproved': ['tokenize', 'Parser::parse_* (grammar)', 'parser_tree_converter', 'TokenLocation::extract_near (bounded Kani only)'],
+    'unproved': ['tokenize', 'Parser::parse_* (grammar)', 'parser_tree_converter', 'TokenLocation::extract_near'],
 }
 
 CHECKS['C12'] = {
